@@ -54,6 +54,8 @@ CallOK(fn, e, a, s) ==
      /\ Console(x) = (IF fn = 2 THEN <<e>> ELSE s)                           \* the console got exactly the text
      /\ Len(x.pio) = Len(Console(x))                                          \* and no other port traffic (no warning)
      /\ \A adr \in DOMAIN Prog \cup DOMAIN StrCells(a, s) : Peek(x.c, adr) = Peek(c, adr)     \* caller's bytes intact
+     \* wherever the caller's code or data lies: nothing but the two bytes CALL 5 pushed may have changed
+     /\ \A adr \in DOMAIN x.c.m : Peek(x.c, adr) # Peek(c, adr) => adr \in {W(c.r.SP - 2), W(c.r.SP - 1)}
      /\ Cardinality(fin) = 1 /\ y.c.r.PC = 65283 /\ y.c.halt /\ y.c.r.SP = c.r.SP          \* JP 0: halted at FF03
 
 Cases == {<<2, e, 1024, <<>>>> : e \in Alpha} \cup {<<9, 0, a, s>> : a \in StrAddrs, s \in Strs}
